@@ -36,6 +36,7 @@ class Inst:
         self.rubkind = 0; self.domkind = 0; self.usevalue = 0; self.ncoord = 0; self.orderkind = 0
         self.order = []; self.trans = []; self.notimp = []; self.rub = []; self.key = []; self.coords = []
         self.layer_of = None   # layered instances: base state -> depth
+        self.pos = []; self.up = []
 
     def line(self):
         t = [self.nvars, self.nbase, self.init, self.initval, self.slack, self.rubkind, self.domkind, self.usevalue,
@@ -48,6 +49,8 @@ class Inst:
         if self.domkind == 1:
             t.extend(self.key)
             for c in self.coords: t.extend(c)
+        if self.orderkind == 1:
+            t.extend(self.pos); t.extend(self.up)
         return "I " + " ".join(str(x) for x in t)
 
     # ---- python-side semantics of the BASE system (used only to build admissible rub / dominance tables
@@ -167,4 +170,55 @@ def gen_layered(rng, nvars=None, per_layer=None, dom_max=None, cost_lo=-5, cost_
             c = [H[k][b]]
             if I.ncoord == 2: c.append(rng.range(0, 1))
             I.coords.append(c)
+    return I
+
+
+def gen_chain(rng, nvars=None, per_layer=None, dom_max=None, rub=None, dominance=0):
+    """Layered instance whose states form, in every layer, a chain for simulation (c_0 <= c_1 <= ...): domains, successor
+    positions and costs are monotone along the chain. Relaxation: merge = chain successor of the highest merged member
+    (a REAL state of the layer, possibly one of the kept nodes -> exercises the `recycled` branch of _relax), relax = identity."""
+    I = Inst()
+    I.nvars = nvars if nvars is not None else rng.range(3, 6)
+    n = I.nvars
+    pl = per_layer if per_layer is not None else rng.range(2, 5)
+    dm = dom_max if dom_max is not None else rng.range(1, 3)
+    order = list(range(n)); rng.shuffle(order); I.order = order
+    layers = [[0]]; nb = 1
+    for k in range(1, n + 1):
+        w = rng.range(2, pl) if k > 0 else 1
+        layers.append(list(range(nb, nb + w))); nb += w
+    I.nbase = nb; I.init = 0; I.initval = rng.range(-3, 3)
+    I.orderkind = 1; I.slack = 0
+    pos = [0] * nb; up = list(range(nb))
+    for L in layers:
+        for i, b in enumerate(L):
+            pos[b] = i; up[b] = L[min(i + 1, len(L) - 1)]
+    for k in range(n):
+        x = order[k]; nxt = layers[k + 1]
+        prev = {}
+        for b in layers[k]:
+            cur = {}
+            for v in range(dm + 1):
+                if v in prev:
+                    t, c = prev[v]
+                    cur[v] = (min(len(nxt) - 1, t + (1 if rng.chance(1, 3) else 0)), c + rng.choice([0, 0, 1, 3]))
+                elif rng.chance(2, 3) or (v == 0 and not prev and b == layers[k][-1]):
+                    cur[v] = (rng.below(len(nxt)), rng.range(-4, 8))
+            for v, (t, c) in cur.items(): I.trans.append((x, b, v, nxt[t], c))
+            prev = cur
+    perm = list(range(nb)); rng.shuffle(perm)
+    I.trans = [(x, perm[b], v, perm[d], c) for (x, b, v, d, c) in I.trans]
+    I.init = perm[0]
+    I.pos = [0] * nb; I.up = [0] * nb
+    for b in range(nb): I.pos[perm[b]] = pos[b]; I.up[perm[b]] = perm[up[b]]
+    rk = rub if rub is not None else rng.choice([0, 1, 2])
+    H = I.hbase()
+    if rk == 0: I.rubkind = 0
+    else:
+        I.rubkind = 1; extra = 0 if rk == 1 else rng.range(1, 4)
+        I.rub = []
+        for b in range(nb):
+            hs = [H[k][b] for k in range(n + 1) if H[k][b] is not None]
+            I.rub.append((max(hs) + extra) if hs else -1000)
+    I.domkind = 0
     return I
